@@ -592,7 +592,7 @@ fn closure_made_cells(report: &mut Report) -> u64 {
 }
 
 /// runs the loom harnesses that share a cell (`loomcheck C13 <tier>`) and turns their verdicts into C13 violations
-fn concurrent_updates(tier: &str, report: &mut Report) -> (u64, u64) {
+fn concurrent_updates(tier: &str, report: &mut Report) -> Result<(u64, u64), String> {
     let bin = crate::report::verif_root().join("loomcheck/target/release/loomcheck");
     if !bin.exists() {
         eprintln!("MACHINERY ERROR: {} is missing (run ./setup.sh or ./check C13)", bin.display());
@@ -601,8 +601,10 @@ fn concurrent_updates(tier: &str, report: &mut Report) -> (u64, u64) {
     let out = std::process::Command::new(&bin).arg("C13").arg(tier).output().expect("start loomcheck");
     let stdout = String::from_utf8_lossy(&out.stdout);
     let Some(line) = stdout.lines().find_map(|l| l.strip_prefix("SUMMARY ")) else {
-        eprintln!("MACHINERY ERROR: loomcheck C13 gave no summary (exit {:?}): {}", out.status.code(), String::from_utf8_lossy(&out.stderr).lines().take(5).collect::<Vec<_>>().join(" / "));
-        std::process::exit(2);
+        // the loom harnesses did not run to a verdict (a harness whose own oracle statements the
+        // implementation rejects, for instance): not a verdict of this part - the other parts of
+        // the check still report what they found; without any finding the run is a machinery failure
+        return Err(format!("loomcheck C13 gave no summary (exit {:?}): {}", out.status.code(), String::from_utf8_lossy(&out.stderr).lines().take(5).collect::<Vec<_>>().join(" / ")));
     };
     let v: serde_json::Value = serde_json::from_str(line).expect("loomcheck summary is JSON");
     for viol in v["violations"].as_array().cloned().unwrap_or_default() {
@@ -611,7 +613,7 @@ fn concurrent_updates(tier: &str, report: &mut Report) -> (u64, u64) {
             detail: json!({"kind": "loom", "case_index": viol["case_index"], "name": viol["name"], "cells": viol["cells"], "setup": viol["setup"], "threads": viol["threads"], "observed": viol["observed"], "replay": "./check C16 --replay <this file> re-runs the harness"}),
         });
     }
-    (v["harnesses"].as_u64().unwrap_or(0), v["schedules"].as_u64().unwrap_or(0))
+    Ok((v["harnesses"].as_u64().unwrap_or(0), v["schedules"].as_u64().unwrap_or(0)))
 }
 
 /// `c = v` stores v and yields v - v itself, not a value that merely compares equal to it: for
@@ -828,7 +830,10 @@ pub fn run(tier: &str) -> i32 {
     // "computed from the content at the moment of the update": with several threads updating one
     // cell this is atomicity of the update; decided by the loom harnesses over shared cells
     // (the C16 machinery, run here for its shared-cell cases) - exhaustive over their schedules
-    let concurrent = concurrent_updates(tier, &mut report);
+    let (concurrent, loom_failure) = match concurrent_updates(tier, &mut report) {
+        Ok(c) => (c, None),
+        Err(e) => ((0, 0), Some(e)),
+    };
     let n_closure_cells = core::on_big_stack(|| closure_made_cells(&mut report));
     let n_store = core::on_big_stack(|| store_grid(&mut report));
     let n_compound = core::on_big_stack(|| compound_grid(&mut report));
@@ -858,12 +863,23 @@ pub fn run(tier: &str) -> i32 {
         "exhaustive": true,
         "rule": "stateright BFS; a state is the reference heap (content of c1, content of c2), deduplicated; every transition replays the whole history on the real interpreter (cells created by the host, passed as arguments, read back afterwards) and compares step result, all alias reads, heap and content-in-declared-type with the reference",
     });
-    report.finish(
+    let code = report.finish(
         "model_checking",
         coverage,
         &[
             "merging histories with equal cell contents is sound: the closure g and the aliasing graph are fixed, so futures depend only on the contents",
             "stateright's search and fingerprinting",
         ],
-    )
+    );
+    match loom_failure {
+        Some(e) if code == 0 => {
+            eprintln!("MACHINERY ERROR: {e}");
+            2
+        }
+        Some(e) => {
+            eprintln!("note: {e}");
+            code
+        }
+        None => code,
+    }
 }
